@@ -72,6 +72,48 @@ def plan_C20(ctx):
     trace_stage(ctx, h, ["--record", str(4000 if ctx.quick else 40000)], "Trace_C20.tla", "Trace_C20.cfg")
 
 
+# ----------------------------------------------------------------------------- C16
+def plan_C16(ctx):
+    b = vcore.build()
+    bs = vcore.build(san=True)
+    h, hs = hbin(b, "h_sdcompact"), hbin(bs, "h_sdcompact")
+    ctx.rule = ("A: every typification up to MaxDepth (plus set-followed-by-sibling shapes up to depth 4) x explored "
+                "compatible values (all of Dom while element domains are small, thinned above) -> round trip on the "
+                "implementation (RoundTripTheorem checked on the model for the same pairs); one-cell / one-row mutants "
+                "of packed tables and every ragged table within MaxRows x MaxCols over Cells against 12 typifications "
+                "-> Unpack returns, and returns nothing or a compatible value (ASan+UBSan build, forked batches). "
+                "non-trivial = table with >= 2 rows or >= 2 cells; distinct = distinct (type, value) or table. "
+                "B: random types (depth <= 4), values and damaged tables recorded from the real code, validated by Trace_C16.")
+    ctx.assumptions = ["memory safety is observed under ASan+UBSan on model-generated inputs, not proved (DESIGN 2.6)",
+                       "exact table layout (FromSData.data = Pack) is compared at drift level only"]
+    cfg = "Gen_C16_q.cfg" if ctx.quick else "Gen_C16_t.cfg"
+    ctx.constants = {"cfg": open(os.path.join(vcore.TLA, cfg)).read().split("SPECIFICATION")[0].split()}
+    # the generator run is also the model-internal check (INVARIANT RoundTripTheorem over every visited (t, v))
+    ctx.replay("Gen_C16.tla", cfg, hs, tag="asan-" + cfg[:-4], timeout=3000, xss="64m")
+    n = 4000 if ctx.quick else 60000
+    trace_stage(ctx, h, ["--record", str(n)], "Trace_C16.tla", "Trace_C16.cfg")
+    trace_stage(ctx, hs, ["--record", str(n // 2)], "Trace_C16.tla", "Trace_C16.cfg", tag="record-asan")
+
+
+# ----------------------------------------------------------------------------- C15
+def plan_C15(ctx):
+    b = vcore.build()
+    h = hbin(b, "h_values")
+    ctx.rule = ("A: every ordered pair of construction recipes of one typification (enumerations in any order with "
+                "duplicates, singletons, lazy power sets, lazy products; 8 typifications up to B(B(B(X))) and "
+                "B(B(X)*X)) with the mathematical answer to every query, and every history of <= MaxHist "
+                "Copy/AddElement/Assign steps on three handles that start as copies of one value; "
+                "non-trivial = left operand non-empty set, or history of >= 2 steps. "
+                "B: random recipes over up to 7 elements with lazy sets beyond the 100-element cache, validated by Trace_C15.")
+    ctx.assumptions = ["AddElement on a lazy (power set / product) representation is outside the compared space: the property does not fix it"]
+    ctx.model_check("MC_C15.tla", "MC_C15.cfg")
+    cfg = "Gen_C15_q.cfg" if ctx.quick else "Gen_C15_t.cfg"
+    ctx.constants = {"cfg": open(os.path.join(vcore.TLA, cfg)).read().split("SPECIFICATION")[0].split()}
+    ctx.replay("Gen_C15.tla", cfg, h, xss="64m", timeout=3000)
+    ctx.exhaustive = True
+    trace_stage(ctx, h, ["--record", str(400 if ctx.quick else 6000)], "Trace_C15.tla", "Trace_C15.cfg")
+
+
 def save_trace(ctx, trace, prefix, tag=""):
     """keep the prefix of a rejected trace (up to and including the offending event) as the replay artefact"""
     d = os.path.join(vcore.BUILD, "replays")
@@ -88,10 +130,13 @@ def save_trace(ctx, trace, prefix, tag=""):
 PLANS = {
     "C14": plan_C14,
     "C20": plan_C20,
+    "C16": plan_C16,
+    "C15": plan_C15,
 }
 
-HARNESS_OF = {"C14": "h_graph", "C20": "h_strings"}
-TRACE_SPEC_OF = {"C14": ("Trace_C14.tla", "Trace_C14.cfg"), "C20": ("Trace_C20.tla", "Trace_C20.cfg")}
+HARNESS_OF = {"C14": "h_graph", "C20": "h_strings", "C16": "h_sdcompact", "C15": "h_values"}
+TRACE_SPEC_OF = {"C14": ("Trace_C14.tla", "Trace_C14.cfg"), "C20": ("Trace_C20.tla", "Trace_C20.cfg"),
+                 "C16": ("Trace_C16.tla", "Trace_C16.cfg"), "C15": ("Trace_C15.tla", "Trace_C15.cfg")}
 
 
 def replay(pid, path):
